@@ -90,6 +90,16 @@ pub fn guarded_sub(len: u32) -> u32 {
 pub fn unguarded_sub(len: u32) -> u32 {
     len - 128
 }
+// additions whose operands are bounded by construction (a masked value, a narrow source type, the length of a slice of bytes in
+// memory) must be discharged; with an operand that is only known to be a usize, or the length of a slice of zero-sized elements
+// (which has no such bound), they must not
+pub fn bounded_add(x: u8, s: &[u8]) -> (usize, usize, usize) {
+    let n = (x & 0x7f) as usize;
+    (2 + n, 2 + s.len(), x as usize + 300)
+}
+pub fn unbounded_add(n: usize, units: &[()]) -> (usize, usize) {
+    (n + 2, units.len() + 2)
+}
 
 // ---- recursion (C11 H2)
 pub fn recurse_unbounded(v: &[u8]) -> u32 {
